@@ -583,6 +583,39 @@ def run_type_history(chk, spec):
 RUNNERS["equal_cells"] = run_equal_cells
 RUNNERS["type_history"] = run_type_history
 
+def run_zero_hash_cells(chk, spec):
+	"""cells whose hash is 0 (0, 0.0, False, '' is not) must not vanish from the fingerprint: a vector-valued cell replaced by a longer / shorter vector of such
+	cells, a column of zeros next to no column at all, a write that turns a leading value into 0 and the next 0 into that value"""
+	import warnings
+	what = spec["what"]
+	chk.judged("sensitivity", ("zero-hash-cells", what))
+	with warnings.catch_warnings():
+		warnings.simplefilter("ignore")
+		if what == "vector-cell-length":
+			o = Vector([Vector([0, 7]), Vector([1, 2, 3])])
+			a = fp(o)
+			w = call(o.__setitem__, 0, Vector(spec["new"]))
+			b = fp(o)
+			if a.ok and b.ok and w.ok and a.value == b.value:
+				chk.fail("a write that changes an element to an unequal value changes the fingerprint", "fingerprint/insensitive/vector-cell-replaced-by-another-length", f"{spec!r}: the cell Vector([0, 7]) replaced by Vector({spec['new']!r}): fingerprint still {a.value}")
+		elif what == "zeros-vs-shorter":
+			pairs = [(Vector([0, 0, 5]), Vector([0, 5, 0])), (Vector([0.0, 1.5]), Vector([1.5, 0.0])), (Vector([False, True, False]), Vector([True, False, False]))]
+			for x, y in pairs:
+				a, b = fp(x), fp(y)
+				if a.ok and b.ok and a.value == b.value:
+					chk.fail("element order matters to the fingerprint", "fingerprint/insensitive/zero-hash-cells-moved", f"{spec!r}: {list(x)!r} and {list(y)!r} have one fingerprint")
+					return
+		else:
+			t = Table({"a": [0, 0, 3], "b": [0, 0, 0]})
+			a = fp(t)
+			w = call(t.__setitem__, (2, slice(None)), [0, 3])
+			b = fp(t)
+			if a.ok and b.ok and w.ok and a.value == b.value:
+				chk.fail("a write that changes an element to an unequal value changes the fingerprint", "fingerprint/insensitive/value-moved-into-a-zero-column", f"{spec!r}: row [3, 0] rewritten as [0, 3]: fingerprint still {a.value}")
+
+
+RUNNERS["zero_hash_cells"] = run_zero_hash_cells
+
 
 def setup(chk):
 	pool.CENSUS.install()
@@ -596,6 +629,10 @@ def run(chk):
 			chk.case("equal_cells", {"pair": pair, "where": where}, "equal-cells")
 	for kind in ("decimal", "frozen-dataclass", "tuple-like", "slice"):
 		chk.case("type_history", {"kind": kind}, "type-history")
+	for new in ([7], [0, 0, 7], [0, 0, 0, 0, 7], [0.0, 7], [False, 7]):
+		chk.case("zero_hash_cells", {"what": "vector-cell-length", "new": new}, "zero-hash-cells")
+	chk.case("zero_hash_cells", {"what": "zeros-vs-shorter"}, "zero-hash-cells")
+	chk.case("zero_hash_cells", {"what": "zero-columns"}, "zero-hash-cells")
 	for K in _multipliers():
 		for via in ("slice", "index-list", "table-row"):
 			for pos in ("adjacent-first", "adjacent-last", "apart"):
